@@ -200,6 +200,10 @@ Done == Quiet /\ AllDone /\ UNCHANGED vars
 Step == (\E a \in Agents : Replicate(a)) \/ (\E p \in Pairs : Deliver(p[1], p[2]))
 Next == (Step /\ UNCHANGED t) \/ Done
 Spec == Init /\ [][Next]_vars
+\* liveness: under weak fairness of the steps of the code (a started handler runs, a queued message is eventually delivered, every
+\* agent / computation is eventually started) the run ends - checked WITHOUT any state constraint
+FairSpec == Spec /\ WF_vars(Step /\ UNCHANGED t)
+Terminates == <>[](Quiet /\ AllDone)
 
 \* ---- properties (C25) --------------------------------------------------------------
 \* every agent eventually reports replication done: no deadlock before (with Done), and quiescence means done
